@@ -28,7 +28,7 @@ pub struct UnitResult {
     /// (trace id, non-trivial)
     pub traces: Vec<(u64, bool)>,
     pub stats: Stats,
-    pub violation: Option<(Case, Violation)>,
+    pub violation: Option<(crate::anycase::AnyCase, Violation)>,
     pub sample: Option<J>,
 }
 
@@ -435,6 +435,14 @@ pub fn run_unit(prop: &str, tier: Tier, seed: u64, want_sample: bool) -> UnitRes
     let mut res = UnitResult::default();
     match prop {
         "C11" => run_unit_c11(tier, &mut rng, want_sample, &mut res),
+        "C19" => {
+            let c = crate::streams::DrcpCase::generate(prop, &mut rng);
+            absorb_any(&mut res, crate::anycase::AnyCase::Drcp(c), want_sample);
+        }
+        "C14" => {
+            let c = crate::dimacs_stream::DimacsCase::generate(prop, &mut rng);
+            absorb_any(&mut res, crate::anycase::AnyCase::Dimacs(c), want_sample);
+        }
         _ => {
             let cases = gen_unit(prop, tier, &mut rng);
             for case in cases {
@@ -447,6 +455,21 @@ pub fn run_unit(prop: &str, tier: Tier, seed: u64, want_sample: bool) -> UnitRes
         }
     }
     res
+}
+
+pub fn absorb_any(res: &mut UnitResult, case: crate::anycase::AnyCase, want_sample: bool) {
+    let out = case.check();
+    res.cases += 1;
+    res.traces.push((out.trace, out.nontrivial()));
+    merge_stats(&mut res.stats, &out.stats);
+    if want_sample && res.sample.is_none() && out.nontrivial() {
+        res.sample = Some(J::obj(vec![("case", case.to_json()), ("simulated_io_calls", J::u(out.stats.polls)), ("faults_fired", J::u(out.stats.faults_fired))]));
+    }
+    if let Some(v) = out.violation {
+        if res.violation.is_none() {
+            res.violation = Some((case, v));
+        }
+    }
 }
 
 fn absorb(res: &mut UnitResult, case: &Case, out: Outcome, want_sample: bool) {
@@ -464,7 +487,7 @@ fn absorb(res: &mut UnitResult, case: &Case, out: Outcome, want_sample: bool) {
     }
     if let Some(v) = out.violation {
         if res.violation.is_none() {
-            res.violation = Some((case.clone(), v));
+            res.violation = Some((crate::anycase::AnyCase::Lib(case.clone()), v));
         }
     }
 }
